@@ -360,6 +360,35 @@ def _per_char(fn, pname, probes, known, module_resolver, facts=None):
                             return res
                         except (P.NoEval, P.Panic) as ex:
                             raise Unknown("per-character closure: %s" % ex)
+    # shape D: p.chars().fold(String::new(), |mut acc, c| { ..; acc }) — the step applied to an empty accumulator gives the
+    # piece for that character (evaluated, vlib/probe.py); that the step only *appends* is checked by applying it to a
+    # non-empty accumulator as well
+    if len(stmts) == 1 and facts is not None:
+        base, chain = rx.method_chain(tail)
+        ms = [m for m, _, _ in chain]
+        if rx.is_var(base, pname) and (ms in (["chars", "fold"], ["as_ref", "chars", "fold"], ["as_str", "chars", "fold"])):
+            fargs = chain[-1][1]
+            if len(fargs) == 2 and fargs[1]["k"] == "closure" and len(fargs[1]["params"]) == 2:
+                from . import probe as P
+
+                OTHER_REP = "\ue000"
+                pr = P.Probe(facts, None, fn.module)
+                res = {}
+                try:
+                    init = pr.ev(fargs[0], {pname: ""})
+                    if init != "":
+                        raise Unknown("fold does not start from an empty string")
+                    fv = pr.ev(fargs[1], {})
+                    for p in probes:
+                        ch = OTHER_REP if p == OTHER else p
+                        r0 = pr.apply(fv, ["", ch])
+                        r1 = pr.apply(fv, ["\ue001\ue002", ch])
+                        if not (isinstance(r0, str) and isinstance(r1, str) and r1 == "\ue001\ue002" + r0):
+                            raise Unknown("the fold step does not append a piece that depends on the character only")
+                        res[p] = [OTHER if x == OTHER_REP else x for x in r0]
+                    return res
+                except (P.NoEval, P.Panic) as ex:
+                    raise Unknown("fold step: %s" % ex)
     raise Unknown("function shape")
 
 
